@@ -191,7 +191,7 @@ class OptionsSuite(Suite):
         return conf
 
     def generate(self, rng, tier):
-        n = 1600 if tier == 'quick' else 40000
+        n = 1600 if tier == 'quick' else 30000
         out = []
         for k in range(n):
             hostile = (k % 4 == 3)
